@@ -68,6 +68,13 @@ def WF : Msg → Prop
   | .message m => m.ac_number < 256 ∧
       ∀ s, m.error_info = some s → s ≠ [] ∧ s.length ≤ 255 ∧ utf8Valid s = true
 
+/-- run-time test of `WF` (see `wfBool_iff`) -/
+def wfBool : Msg → Bool
+  | .request r => decide (r.ac_number < 256)
+  | .message m => decide (m.ac_number < 256) && match m.error_info with
+    | none => true
+    | some s => !s.isEmpty && decide (s.length ≤ 255) && utf8Valid s
+
 /-- a well-formed message whose text contains 2-, 3- and 4-byte characters ("é€😀!") -/
 example : WF (.message ⟨1, some [0xC3, 0xA9, 0xE2, 0x82, 0xAC, 0xF0, 0x9F, 0x98, 0x80, 0x21]⟩) := by
   refine ⟨by decide, ?_⟩
